@@ -1859,15 +1859,21 @@ impl<'a, R: FileManager> FrontendCtx<'a, R> {
         &mut self,
         q: &TsEntityName,
         file: BffFileName,
+        // how the leftmost name is looked up in `file`: as a local name, or - for import("./m").E.Member,
+        // where `file` is m and the name is written in another file - as an export of it
+        visibility: Visibility,
+        referring_file: &BffFileName,
     ) -> Res<AddressedQualifiedType> {
         match q {
             TsEntityName::TsQualifiedName(ts_qualified_name) => {
                 let left_part = self.get_adressed_qualified_type_from_entity_name(
                     &ts_qualified_name.left,
                     file.clone(),
+                    visibility,
+                    referring_file,
                 )?;
                 let anchor = Anchor {
-                    f: file.clone(),
+                    f: referring_file.clone(),
                     s: ts_qualified_name.span(),
                 };
                 match left_part {
@@ -1883,14 +1889,9 @@ impl<'a, R: FileManager> FrontendCtx<'a, R> {
                 }
             }
             TsEntityName::Ident(ident) => {
-                let addr = ModuleItemAddress::from_ident(
-                    ident,
-                    file.clone(),
-                    // TODO: is visibility correct here?
-                    Visibility::Local,
-                );
+                let addr = ModuleItemAddress::from_ident(ident, file.clone(), visibility);
                 let anchor = Anchor {
-                    f: file.clone(),
+                    f: referring_file.clone(),
                     s: ident.span,
                 };
                 let type_addressed = self.get_addressed_qualified_type(&addr, &anchor)?;
@@ -1957,6 +1958,8 @@ impl<'a, R: FileManager> FrontendCtx<'a, R> {
                 let qualified_type = self.get_adressed_qualified_type_from_entity_name(
                     &ts_qualified_name.left,
                     file.clone(),
+                    visibility,
+                    &anchor.f,
                 )?;
 
                 let new_addr = match qualified_type {
